@@ -221,6 +221,22 @@ PROPS = {
             "main": {"bin": "omni", "run": "TestC14", "checks": {"quick": 5, "thorough": 160}, "shards": {"quick": 1, "thorough": 16}, "shrinktime": "60s"},
         },
     },
+    "C19": {
+        "level": "exploration",
+        "level_text": "(a) Byte strings sent to the real add-checkpoint handler (real witness holding a checkpoint, rebuilt per input, 16 KiB cap), to parseBody and to Proof.Unmarshal: seeds of every verdict class and hostile constants, structured mutations, random bytes under rapid (quick) and native coverage-guided fuzzing on all cores (thorough), with semantic oracles inside the targets. (b) Generated scripts of hostile log-server and distributor behaviour (valid/truncated/oversized/random bodies x statuses x connection errors; log-signed checkpoints with sizes 0..2^64-1 and roots of 0/5/32/33 bytes) for all five feeder types and the distributor, executed in child processes under a watchdog: every cycle must end with a result or an error, no panic, no hang.",
+        "level_note": "Never establishes absence; depth is what the budget buys. Hangs are confirmed by a goroutine dump before being reported. Native fuzz campaigns cannot be seeded; their saved crashers are the reproducible unit.",
+        "technique": "fuzzing (native go coverage-guided, thorough) + property-based structured mutation (rapid) with semantic oracles; hostile-server scripts under a process watchdog",
+        "assumptions": HIST_ASSUME[:1],
+        "parts": {
+            "endpoint": {"bin": "bastion", "run": "TestC19Endpoint", "checks": {"quick": 3000, "thorough": 200000}, "shards": {"quick": 4, "thorough": 16}},
+            "feeders": {"bin": "verifh", "run": "TestC19Feeders", "checks": {"quick": 3, "thorough": 160}, "shards": {"quick": 1, "thorough": 8}, "shrinktime": "60s"},
+            "sizes": {"bin": "verifh", "run": "TestC19Sizes", "kind": "plain", "shards": {"quick": 1, "thorough": 2}},
+            "known": {"bin": "verifh", "run": "TestC19Known", "kind": "plain"},
+            "fuzz-handler": {"bin": "bastion", "kind": "fuzz", "fuzz": "FuzzC19Handler", "run": "-", "fuzztime": {"thorough": 120}, "tiers": ["thorough"]},
+            "fuzz-parsebody": {"bin": "bastion", "kind": "fuzz", "fuzz": "FuzzC19ParseBody", "run": "-", "fuzztime": {"thorough": 60}, "tiers": ["thorough"]},
+            "fuzz-proof": {"bin": "bastion", "kind": "fuzz", "fuzz": "FuzzC19Proof", "run": "-", "fuzztime": {"thorough": 45}, "tiers": ["thorough"]},
+        },
+    },
 }
 
 # properties not (yet) claimed: id -> reason
